@@ -36,7 +36,8 @@ def check(model, tier):
     _mergeeval.r05_9_merge_semantics(ctx)
     from ..rules import sqlplace as _sqlplace
 
-    _sqlplace.r_refusals_only_where_needed(ctx, "R05.10")  # merging into a Select never rejects a valid operation
+    _sqlplace.r_refusals_only_where_needed(ctx, "R05.10")
+    _sqlplace.r02_1_placement_table(ctx, rule="R05.11")  # sorts and slices met in a Select are composed with then(), never replaced  # merging into a Select never rejects a valid operation
     from ..rules import structure as _structure
 
     _structure.r14_5_noop_identity(ctx)  # an elided operation returns the target itself, in the target's own engine
